@@ -21,7 +21,7 @@ PROP = {
     "cases_per_file": 40,
     "rule": "scenario = 0-6 events written at istructs level with one real generator per workspace (new and synced events, "
             "explicit IDs above/below next, at the generator's value on rows before/after raw rows, and MaxUint64, ODoc argument trees, CUD graphs with parent/child and reference fields, "
-            "singletons, updates) then 0-12 commands through the real command processor with restarts (everything above "
+            "singletons, updates) then 0-12 commands through the real command processor with restarts, a third of them through an APIv2 path and a fifth as c.sys.Init (synced events built by the processor) (everything above "
             "the storage rebuilt, partition recovered from the PLog) between them, two workspaces, raw IDs from a small "
             "alphabet reused by every event; about a fifth of the events carry one ID-rule mutation (unknown raw "
             "reference/parent, duplicate ID, storage ID in a new event, null ID, singleton twice, argument reference to a "
